@@ -1,6 +1,9 @@
 """C01 -- every expression evaluates to its mathematical value on both evaluation paths."""
 import json
 
+import py2v
+from py2v import External, Untranslatable, simple
+
 from bridge import heads_in, tree_depth, tree_size
 from gen_expr import count_shared, gen_case, strip_sids
 from values import check_values
@@ -12,6 +15,55 @@ ASSUME = [
     'normal CDF: the interval extension PhiI_series (rocq/Model/PhiI.v: Taylor series with geometric tail bound) is TRUSTED to enclose Phi '
     '(hypothesis PhiI_correct of the soundness theorem; cross-checked against scipy on a grid), not proved',
 ]
+
+
+PYEVAL = [
+    # (file, class, Gallina name, parameters)
+    ('binary_expressions.py', 'Plus', 'py_Plus', 'lr'), ('binary_expressions.py', 'Minus', 'py_Minus', 'lr'),
+    ('binary_expressions.py', 'Times', 'py_Times', 'lr'), ('binary_expressions.py', 'Divide', 'py_Divide', 'lr'),
+    ('binary_expressions.py', 'Power', 'py_Power', 'lr'), ('binary_expressions.py', 'bioMin', 'py_bioMin', 'lr'),
+    ('binary_expressions.py', 'bioMax', 'py_bioMax', 'lr'), ('binary_expressions.py', 'And', 'py_And', 'lr'),
+    ('binary_expressions.py', 'Or', 'py_Or', 'lr'),
+    ('comparison_expressions.py', 'Equal', 'py_Equal', 'lr'), ('comparison_expressions.py', 'NotEqual', 'py_NotEqual', 'lr'),
+    ('comparison_expressions.py', 'LessOrEqual', 'py_LessOrEqual', 'lr'), ('comparison_expressions.py', 'GreaterOrEqual', 'py_GreaterOrEqual', 'lr'),
+    ('comparison_expressions.py', 'Less', 'py_Less', 'lr'), ('comparison_expressions.py', 'Greater', 'py_Greater', 'lr'),
+    ('unary_expressions.py', 'UnaryMinus', 'py_UnaryMinus', 'c'), ('unary_expressions.py', 'exp', 'py_exp', 'c'),
+    ('unary_expressions.py', 'sin', 'py_sin', 'c'), ('unary_expressions.py', 'cos', 'py_cos', 'c'),
+    ('unary_expressions.py', 'log', 'py_log', 'c'), ('unary_expressions.py', 'logzero', 'py_logzero', 'c'),
+    ('nary_expressions.py', 'bioMultSum', 'py_bioMultSum', 'kids'), ('nary_expressions.py', 'ConditionalSum', 'py_ConditionalSum', 'terms'),
+]
+
+
+def gen_all(ctx):
+    """tie A for the pure-Python evaluator: every simple `get_value` method is translated to a real function of the
+    values of its children (self.left.get_value() -> l, ...).  Proofs/PyEvalP.v proves each equal to the semantics evalX uses."""
+    ident = External(lambda tr, node, args: args[0])
+    ext = {
+        '.get_value()': ident,
+        'np.exp': simple('exp', ['R'], 'R'), 'np.log': simple('ln', ['R'], 'R'),
+        'np.sin': simple('sin', ['R'], 'R'), 'np.cos': simple('cos', ['R'], 'R'),
+        '.condition': External(lambda tr, node, args: (f'(fst {args[0][0]})', 'R')),
+        '.term': External(lambda tr, node, args: (f'(snd {args[0][0]})', 'R')),
+    }
+    attrs = {'self.left': ('l', 'R'), 'self.right': ('r', 'R'), 'self.child': ('c', 'R'),
+             'self.list_of_terms': ('terms', 'list (R * R)')}
+    ext2 = dict(ext)
+    ext2['self.get_children'] = External(lambda tr, node, args: ('kids', 'list R'))
+    out = ['From Coq Require Import Reals List.', 'From BV Require Import Model.PyBase Model.Stats.', 'Import ListNotations.',
+           'Open Scope R_scope.']
+    cache = {}
+    for fn, cls, name, params in PYEVAL:
+        if fn not in cache:
+            cache[fn] = py2v.load('src/biogeme/expressions/' + fn, externals=ext2, attrs=attrs)
+        tr = cache[fn]
+        pre = {'lr': {'l': 'R', 'r': 'R'}, 'c': {'c': 'R'}, 'kids': {'kids': 'list R'}, 'terms': {'terms': 'list (R * R)'}}[params]
+        tr.attrs = {k: v for k, v in attrs.items()}
+        d = tr.function(f'{cls}.get_value', {}, 'R', coqname=name, pre_env=pre)
+        # the parameters are the children's values, not Python arguments
+        head = ' '.join(f'({k} : {t})' for k, t in pre.items())
+        d = d.replace(f'Definition {name}  : R', f'Definition {name} {head} : R')
+        out.append(d)
+    ctx.gen('PyEval', '\n'.join(out) + '\n')
 
 
 def chunks(l, n):
@@ -362,7 +414,12 @@ def stream_stale(ctx):
 
 def run(ctx):
     ctx.assumptions += ASSUME
+    try:
+        gen_all(ctx)
+    except Untranslatable as e:
+        ctx.tie_broken('py2v:PyEval', str(e))
     ctx.trusted += ['engine semantics modelled (rocq/Model/EvalX.v), not verified',
+                    'py2v translator (tie A) for the get_value methods of the pure-Python evaluator (Gen/PyEval.v)',
                     'expression bridge lib/impl/bio_bridge.py / bio_build.py (round trip checked on every case)']
     ctx.build()
     stream_values(ctx)
